@@ -63,13 +63,18 @@ class EndpointUrlArgsGenerator:
                 )
 
     def _write_header_params(
-        self, writer: CodeWriter, op: IROperation, ordered_params: List[dict[str, Any]], context: RenderContext
+        self,
+        writer: CodeWriter,
+        op: IROperation,
+        ordered_params: List[dict[str, Any]],
+        context: RenderContext,
+        param_in: str = "header",
     ) -> None:
-        """Writes header parameter dictionary construction."""
+        """Writes header (or, with param_in="cookie", cookie) parameter dictionary construction."""
         # Logic from EndpointMethodGenerator._write_header_params
         # Iterate through ordered_params to find header params, op.parameters may not be directly useful here
         # if ordered_params is the sole source of truth for method params.
-        header_params_to_write = [p for p in ordered_params if p.get("param_in") == "header"]
+        header_params_to_write = [p for p in ordered_params if p.get("param_in") == param_in]
 
         # Import DataclassSerializer since we use it for parameter serialization
         if header_params_to_write:
@@ -145,6 +150,14 @@ class EndpointUrlArgsGenerator:
             # writer.indent()
             self._write_header_params(writer, op, ordered_params, context)
             # writer.dedent()
+            writer.write_line("}")
+            writer.write_line("")  # Add a blank line
+
+        # Cookie Parameters (same construction as the headers dict)
+        if any(p.get("param_in") == "cookie" for p in ordered_params):
+            context.add_import("typing", "Any")  # For dict[str, Any]
+            writer.write_line("cookies: dict[str, Any] = {")
+            self._write_header_params(writer, op, ordered_params, context, param_in="cookie")
             writer.write_line("}")
             writer.write_line("")  # Add a blank line
 
